@@ -223,22 +223,19 @@ func cachingHandler(router proxy.Router, logger *apexlog.Logger, conf *config.Co
 
 				var statusOverride *int
 				if rRange != nil {
-					if cr.Metadata.FdSize == 0 {
-						msg := fmt.Sprintf("Range requested but resource was zero-length. Key on disk: %v", key.FsName())
-						logger.WithField("range", *rRange).WithField("key", key).Warnf(msg)
-						sentry.CaptureMessage(msg)
-						(*w).WriteHeader(503)
-						return
-					}
 					if cr.Metadata.Status == 200 {
-						cl, _ := strconv.Atoi(cr.Metadata.Header.Get("content-length"))
+						// The stored size is the length of the resource, whatever framing the origin used.
 						var s int
-						s, alwaysInclude = setRangedHeaders(rRange, int64(cl), cr.Metadata.Status, alwaysInclude)
+						s, alwaysInclude = setRangedHeaders(rRange, cr.Metadata.Size, cr.Metadata.Status, alwaysInclude)
 						if s >= 400 {
 							(*w).WriteHeader(s)
 							return
 						}
 						statusOverride = &s
+					}
+					if statusOverride == nil || *statusOverride != 206 {
+						// no partial response was announced (empty resource, non-200 entry): send all of it
+						rRange = nil
 					}
 				}
 
@@ -340,17 +337,24 @@ func cachingHandler(router proxy.Router, logger *apexlog.Logger, conf *config.Co
 						alwaysInclude.Set(hname, hval)
 					}
 				}
-				var statusOverride *int
-				if rRange != nil && reqres.Response.StatusCode == 200 {
-					var s int
-					s, alwaysInclude = setRangedHeaders(rRange, reqres.Response.ContentLength, reqres.Response.StatusCode, alwaysInclude)
-					if s >= 400 {
-						(*w).WriteHeader(s)
-						return
-					}
-					statusOverride = &s
-				}
 				dirs := caching.GetCacheControlDirectives(reqres.Response.Header)
+				var statusOverride *int
+				if rRange != nil {
+					// A range can only be cut out of a complete 200 that goes through the cache file.
+					if reqres.Response.StatusCode == 200 && !dirs.DoNotCache() && !shouldSkip {
+						var s int
+						s, alwaysInclude = setRangedHeaders(rRange, reqres.Response.ContentLength, reqres.Response.StatusCode, alwaysInclude)
+						if s >= 400 {
+							(*w).WriteHeader(s)
+							return
+						}
+						statusOverride = &s
+					}
+					if statusOverride == nil || *statusOverride != 206 {
+						// length unknown (chunked origin), not a 200, or not cacheable: send the complete response
+						rRange = nil
+					}
+				}
 				if len(usedRevalidateHeader) > 0 {
 					r.Header.Del(usedRevalidateHeader)
 					if reqres.Response.StatusCode == 304 && !dirs.DoNotCache() {
@@ -648,6 +652,17 @@ func clearAndCopyHeaders(w http.ResponseWriter, originHeader http.Header, always
 func setRangedHeaders(rr *requestRange, contentLength int64, statusCode int, h *http.Header) (int, *http.Header) {
 	if rr == nil || statusCode != 200 || contentLength <= 0 {
 		return statusCode, h
+	}
+
+	if rr.s == nil && rr.e != nil {
+		// suffix form bytes=-n (kept as a negative end): the last n bytes, at most the whole resource
+		if *rr.e >= 0 {
+			return 416, h
+		}
+		if -*rr.e > contentLength {
+			whole := -contentLength
+			rr.e = &whole
+		}
 	}
 
 	if (rr.s != nil && *rr.s > contentLength-1) || (rr.e != nil && *rr.e > contentLength-1) {
